@@ -109,6 +109,13 @@ def run(prog, rep, tier='quick'):
                                   'shape %s, exponent %s, depends on %s' % (getattr(sk, 'shape', None), getattr(sk, 'deg', {}).get('s'),
                                                                             sorted(str(z) for z in t if not str(z).startswith('V:'))), where)
                 # roles
+                if given:
+                    srt = [e_ for e_ in itp.events if e_[0] == 'sort' and 'E' in e_[2] and 'V' not in e_[2] and e_[3].startswith('mtm.')]
+                    if srt and ('sort', normalise(srt[0][1])) not in seen:
+                        seen.add(('sort', normalise(srt[0][1])))
+                        rep.violation('roles', srt[0][3], normalise(srt[0][1])[:60], 'the supplied eigenvalues are sorted on their own: eigenvalue i '
+                                      'no longer belongs to taper i unless the caller\'s tapers happen to be in that order (weights and the '
+                                      'returned eigenvalues are then those of other tapers) [%s]' % ctx, loc('mtm', srt[0][1]))
                 te = taint_of(ev)
                 if ev_l in te and tap_l not in te and 'x' not in te:
                     rep.proved('roles', f.qname, ctx, 'eigenvalues from %s' % ev_l, where)
@@ -131,6 +138,16 @@ def run(prog, rep, tier='quick'):
                         and len(wn.shape) == 2 and wn.shape[0] == kw['NFFT'].a and wn.shape[1] == K().a
                     why = 'real, scale-free, shape (NFFT, k)'
                 if method == 'adapt':
+                    # Thomson's weights S/(lambda*S + (1-lambda)*sigma^2) are a smooth function of the spectrum, bounded by 1/lambda: no
+                    # element-wise bound other than `>= 0` is applied to data-dependent values on the way to the weights
+                    cl = [e_ for e_ in itp.events if e_[0] == 'clip' and 'x' in e_[4] and e_[5].startswith('mtm.')
+                          and not (e_[2] == 'lower' and e_[3] is not None and e_[3] <= 0)]
+                    if cl and ('clip', normalise(cl[0][1])) not in seen:
+                        seen.add(('clip', normalise(cl[0][1])))
+                        rep.violation('weights', cl[0][5], normalise(cl[0][1])[:60], 'the adaptive weights pass through an element-wise %s bound%s: '
+                                      'Thomson\'s formula is not clipped (its values range up to 1/eigenvalue), so wherever the bound is active '
+                                      'the weights and the spectrum the iteration converges to are not Thomson\'s [%s]'
+                                      % (cl[0][2], '' if cl[0][3] is None else ' at %s' % cl[0][3], ctx), loc('mtm', cl[0][1]))
                     # convergence test of the adaptive iteration: previous and new estimate are distinct buffers
                     # the iteration may sit in pmtm itself or in a private helper it calls
                     fnodes = [f.node]
@@ -138,7 +155,9 @@ def run(prog, rep, tier='quick'):
                         if qn.startswith('mtm.') and qn != f.qname and qn.count('.') == 1 and qn.split('.')[1] in prog.modules['mtm'].funcs:
                             fnodes.append(prog.modules['mtm'].funcs[qn.split('.')[1]])
                     wl = [n for fn_ in fnodes for n in ast.walk(fn_) if isinstance(n, ast.While)]
-                    subs = [b for w_ in wl for b in ast.walk(w_.test) if isinstance(b, ast.BinOp) and isinstance(b.op, ast.Sub)]
+                    subs = [b for w_ in wl for b in ast.walk(w_.test) if (isinstance(b, ast.BinOp) and isinstance(b.op, ast.Sub)) or
+                            (isinstance(b, ast.Call) and len(b.args) >= 2 and
+                             getattr(b.func, 'attr', getattr(b.func, 'id', None)) in ('allclose', 'isclose', 'array_equal', 'array_equiv'))]
                     ids = set((normalise(b), b.lineno) for b in subs)
                     same = [e_ for e_ in itp.events if e_[0] == 'self-diff' and (normalise(e_[1]), e_[1].lineno) in ids]
                     n_conv += 1
